@@ -1,6 +1,7 @@
 package c08
 
 import (
+	"strings"
 	"testing"
 
 	"verif/internal/devsim"
@@ -51,6 +52,25 @@ func TestProbeEchoTailSharesRead(t *testing.T) {
 			if bad > 0 {
 				t.Errorf("v=%s release=%s: %d of 6 runs violated; last: %s\n%s", ver, rel, bad, last.Key, last.Detail)
 			}
+		}
+	}
+}
+
+// Minimal witness: echoing transport; the end of the echo of the client's hello (its delimiter) and
+// the beginning of the echo of the first request (message-id="101", not yet </rpc>) arrive in one
+// transport read. The buffer then holds a delimiter and an id but no </rpc>: it is filed as the reply
+// to request 101 and the call returns the echo of the hello.
+func TestProbeHelloEchoSharesReadWithFirstRequest(t *testing.T) {
+	for _, ver := range []string{"1.0", "1.1"} {
+		res := RunSession(Session{Profile: "probe", Version: ver, Echo: true, NoEchoMark: true, HoldHelloTail: 3,
+			Seg: devsim.Seg{Mode: "fixed", Size: 4096},
+			Calls: []Call{
+				{Kind: "edit-config", Store: "candidate", Arg: "<config><motd>" + strings.Repeat("abcdefghij", 600) + "</motd></config>",
+					Plan: "now", Nonce: "nx-probe-a", Body: "ok"},
+				{Kind: "get", Arg: "<a/>", Plan: "now", Nonce: "nx-probe-b", Body: "data", Fill: "x"},
+			}})
+		if res.Verdict != mon.Held {
+			t.Errorf("v=%s: %s %s\n%s", ver, res.Verdict, res.Key, res.Detail)
 		}
 	}
 }
